@@ -23,13 +23,22 @@
       raise — the exclusion classes are tight;
     * `C11_ignored_skipped`, `C11_excluded_skipped`, `C11_skip_no_entry`, `C11_not_inlined`: a
       module-level def / class that is ignored or excluded gets no IR entry and is never inlined;
-      static methods and lambdas are the counterexamples (`C11_cex_static_*`, `C11_cex_lambda_*`).
+      static methods and lambdas are the counterexamples (`C11_cex_static_*`, `C11_cex_lambda_*`);
+    * callers (model `RattrModel/DeclaredInline.lean`, spec `RattrModel/Spec/DeclaredSubst.lean`):
+      `C11_unbind_declared_name`, `C11_inline_declared_partial`, `C11_parse_then_inline_partial`: what one call of an annotated
+      callable contributes to its caller is the declaration with the root of EVERY declared name replaced by
+      the argument `construct_call_swaps` binds to that parameter — all names at once, each looked up exactly
+      once, never `ValueError("never")` — whatever the arguments are called (`C11_simultaneous_ne_sequential`:
+      a call whose arguments are spelled like other parameters of the callee tells the two readings apart);
+      hypothesis `plainRoots`: no declared name has `[]` / `()` directly on its root — otherwise the name is not
+      substituted at all (`C11_cex_subscripted_root`, `C11_subst_full_false`: a defect of the pinned `as_name`).
 -/
 import RattrProofs.Lemmas.C11
+import RattrProofs.Lemmas.C11Subst
 import RattrModel.Generated.C11
 
 namespace Rattr.C11
-open Rattr Rattr.Ann Rattr.Strs Rattr.Spec.Honoured
+open Rattr Rattr.Ann Rattr.Strs Rattr.Spec.Honoured Rattr.Results
 
 /-! ### Tie A: what the model hard-codes is what the source says now -/
 
@@ -77,6 +86,25 @@ theorem tieA_lambda_assign_checks : Generated.C11.lambdaAssignChecks = [] := by 
 
 theorem tieA_resolve_function_checks :
     Generated.C11.resolveFunctionChecks = ["is_excluded_name"] := by decide
+
+/-- `unbind_ir_with_call_swaps` is one returned dict display: each of gets / sets / dels a comprehension
+renaming every name ONCE by a lookup of its basename in the swaps; calls unchanged (→ `Results.unbindIr`) -/
+theorem tieA_unbind_ir_shape :
+    Generated.C11.unbindIrShape =
+      ["gets = {unbind_name(n, swaps.get(n.basename, n.basename)) for n in ir['gets']}",
+       "sets = {unbind_name(n, swaps.get(n.basename, n.basename)) for n in ir['sets']}",
+       "dels = {unbind_name(n, swaps.get(n.basename, n.basename)) for n in ir['dels']}",
+       "calls = ir['calls']"]
+    ∧ Generated.C11.unbindIrParams = ["ir", "swaps"] := ⟨rfl, rfl⟩
+
+/-- the statements of `unbind_name` (→ `Results.unbindName`) -/
+theorem tieA_unbind_name_body :
+    Generated.C11.unbindNameBody =
+      ["if symbol.basename == new_basename: return symbol",
+       "if symbol.name.startswith('*'): old, new = (f'*{symbol.basename}', f'*{new_basename}') else: old, new = (symbol.basename, new_basename)",
+       "if not symbol.name.startswith(old): raise ValueError('never')",
+       "new_name = symbol.name.replace(old, new, 1)",
+       "return Name(name=new_name, basename=new_basename, location=symbol.location)"] := rfl
 
 /-! ### identifiers -/
 
@@ -489,6 +517,118 @@ theorem C11_declared_body_irrelevant (ds : List Deco) (v : List Bool) (ir : Decl
     · cases h
   | fatal f => rw [h1] at h; cases h
   | crash c => rw [h1] at h; cases h
+
+/-! ### callers: declared names are inlined by SIMULTANEOUS substitution -/
+
+/-- the basename `as_name` gives a well-formed declared spelling is its root (what parameters are compared with) -/
+theorem C11_declared_basename_is_root (s : Str) (h : isIdent s = true) (hp : plainRoot s = true) :
+    (asName s).base = rootOf s := by
+  rw [asName_eq_specName]; exact (unbindName_specName s [] h hp).2
+
+/-- `unbind_name` NEVER raises on a well-formed declared name (plain root or not) -/
+theorem C11_unbind_declared_never_raises (s nb : Str) (h : isIdent s = true) :
+    (Results.unbindName (asName s) nb).isSome = true := by
+  rw [asName_eq_specName, (unbindName_specName_dot s nb h).1]; rfl
+
+/-- `unbind_name` on a well-formed declared name never raises and is the root replacement of the spec -/
+theorem C11_unbind_declared_name (s nb : Str) (h : isIdent s = true) (hp : plainRoot s = true) :
+    Results.unbindName (asName s) nb = some { full := substSpelling s nb, base := nb } := by
+  rw [asName_eq_specName]; exact (unbindName_specName s nb h hp).1
+
+/-- **substitution, any swaps dictionary**: `unbind_ir_with_call_swaps` on the IR of a well-formed annotation is
+the simultaneous substitution of the spec — for EVERY dictionary (cycles, chains, swaps, identity). -/
+theorem C11_unbind_declared_partial (pv : List PyVal) (kv : KwVals) (sw : Dict Str Str)
+    (h : WellFormed pv kv = true) (hp : plainRoots kv = true) :
+    unbindDeclared sw (declared kv) = some (substDeclared sw kv) := by
+  unfold WellFormed at h
+  unfold plainRoots at hp
+  simp only [Bool.and_eq_true] at h hp
+  obtain ⟨⟨pg, ps⟩, pd⟩ := hp
+  obtain ⟨⟨⟨⟨⟨_, _⟩, hg⟩, hs⟩, hd⟩, _⟩ := h
+  obtain ⟨eg, ig⟩ := declaredNames_field _ hg
+  obtain ⟨es, is_⟩ := declaredNames_field _ hs
+  obtain ⟨ed, id_⟩ := declaredNames_field _ hd
+  unfold unbindDeclared Results.unbindIr DeclaredIr.toSets declared
+  simp only [eg, es, ed, unbindList_declared sw _ ig pg, unbindList_declared sw _ is_ ps, unbindList_declared sw _ id_ pd]
+  rfl
+
+/-- **one call of an annotated callable**: the caller receives the declaration under the binding
+`construct_call_swaps` computes, all names at once. (That this binding is CPython's is C04's theorem
+`C04_partial_sharp`.) -/
+theorem C11_inline_declared_partial (si : StandIns Str) (f : Iface Str) (call : CallArgs Str)
+    (pv : List PyVal) (kv : KwVals) (h : WellFormed pv kv = true) (hp : plainRoots kv = true) :
+    (inlineDeclared si f call (declared kv)).1 = some (substDeclared (Swaps.construct si f call).1 kv) :=
+  C11_unbind_declared_partial pv kv _ h hp
+
+/-- from the decorator EXPRESSIONS: whatever is accepted is inlined by simultaneous substitution, and result
+generation never meets `ValueError("never")` on a declared IR. -/
+theorem C11_parse_then_inline_partial (pos : List Lit) (kws : List (Option Str × Lit)) (ir : DeclaredIr)
+    (si : StandIns Str) (f : Iface Str) (call : CallArgs Str) (hp : parseResults pos kws = .ok ir) :
+    ∃ pv kv, evalArgs pos kws = .ok (pv, kv) ∧
+      (plainRoots kv = true →
+        (inlineDeclared si f call ir).1 = some (substDeclared (Swaps.construct si f call).1 kv)) := by
+  obtain ⟨pv, kv, he, hw, rfl⟩ := C11_declared_exact pos kws ir hp
+  exact ⟨pv, kv, he, C11_inline_declared_partial si f call pv kv hw⟩
+
+/-- the full substitution statement: every well-formed declaration is inlined by the property's substitution -/
+def C11_subst_full : Prop :=
+  ∀ (pv : List PyVal) (kv : KwVals) (sw : Dict Str Str), WellFormed pv kv = true →
+    unbindDeclared sw (declared kv) = some (substDeclared sw kv)
+
+/-- **defect** (found by the round-4 substitution stream): a declared name whose root carries `[]` / `()`
+directly — `gets={"a[]"}` — gets the basename `a[]` from `as_name`, which is no parameter: the caller of
+`f(a)` called as `f(p)` shows `a[]`, not `p[]` (the same access written in a body is renamed). -/
+theorem C11_cex_subscripted_root :
+    WellFormed [] [(some kGets, .set [.str "a[]".toList, .str "a.x".toList])] = true
+    ∧ plainRoots [(some kGets, .set [.str "a[]".toList, .str "a.x".toList])] = false
+    ∧ unbindDeclared [("a".toList, "p".toList)] (declared [(some kGets, .set [.str "a[]".toList, .str "a.x".toList])])
+        = some { gets := [⟨"a[]".toList, "a[]".toList⟩, ⟨"p.x".toList, "p".toList⟩], sets := [], dels := [] }
+    ∧ substDeclared [("a".toList, "p".toList)] [(some kGets, .set [.str "a[]".toList, .str "a.x".toList])]
+        = { gets := [⟨"p[]".toList, "p".toList⟩, ⟨"p.x".toList, "p".toList⟩], sets := [], dels := [] } := by decide
+
+theorem C11_subst_full_false : ¬ C11_subst_full := by
+  intro h
+  have h1 := h [] [(some kGets, .set [.str "a[]".toList, .str "a.x".toList])] [("a".toList, "p".toList)] (by decide)
+  rw [C11_cex_subscripted_root.2.2.1] at h1
+  exact absurd h1 (by decide)
+
+/-- a declared name whose root is no key of the swaps stays as written -/
+theorem C11_unbound_root_unchanged (s : Str) (sw : Dict Str Str)
+    (hn : Dict.get? sw (rootOf s) = none) : (substName sw s).base = rootOf s := by
+  simp [substName, applyBinding, hn]
+
+def siS : StandIns Str := { tuple := "@Tuple".toList, dict := "@Dict".toList }
+
+def kvTransfer : KwVals :=
+  [(some kGets, .set [.str "src.balance".toList, .str "log.level".toList]),
+   (some kSets, .set [.str "dst.balance".toList]),
+   (some kDels, .set [.str "*src.lock[]".toList])]
+
+def ifaceTransfer : Iface Str :=
+  { posonly := [], args := ["src".toList, "dst".toList, "log".toList], vararg := none, kwonly := [], kwarg := none }
+
+/-- test (decide): `transfer(src, dst, log)` called as `transfer(dst, src, journal)` and, shifted, as
+`transfer(dst, log, sink)`: the model inlines the simultaneous reading -/
+theorem C11_inline_transfer_swapped :
+    (inlineDeclared siS ifaceTransfer { args := ["dst".toList, "src".toList, "journal".toList], kwargs := [] }
+        (declared kvTransfer)).1
+      = some { gets := [⟨"dst.balance".toList, "dst".toList⟩, ⟨"journal.level".toList, "journal".toList⟩],
+               sets := [⟨"src.balance".toList, "src".toList⟩],
+               dels := [⟨"*dst.lock[]".toList, "dst".toList⟩] }
+    ∧ (inlineDeclared siS ifaceTransfer { args := [], kwargs := [("log".toList, "sink".toList), ("dst".toList, "log".toList), ("src".toList, "dst".toList)] }
+        (declared kvTransfer)).1
+      = some { gets := [⟨"dst.balance".toList, "dst".toList⟩, ⟨"sink.level".toList, "sink".toList⟩],
+               sets := [⟨"log.balance".toList, "log".toList⟩],
+               dels := [⟨"*dst.lock[]".toList, "dst".toList⟩] } := by decide
+
+/-- the two readings differ exactly on such calls: applying the bindings one after the other collapses the swapped
+names onto one variable -/
+theorem C11_simultaneous_ne_sequential :
+    let b := [("src".toList, "dst".toList), ("dst".toList, "src".toList), ("log".toList, "journal".toList)]
+    (["src.balance".toList, "dst.balance".toList].map (fun s => (substName b s).full))
+        = ["dst.balance".toList, "src.balance".toList]
+    ∧ substSequential b ["src.balance".toList, "dst.balance".toList]
+        = ["src.balance".toList, "src.balance".toList] := by decide
 
 /-! ### the full statement, and why it is false on the pinned tree -/
 
